@@ -88,21 +88,19 @@ func (e *CachedEnforcer) Enforce(rvals ...interface{}) (bool, error) {
 }
 
 func (e *CachedEnforcer) LoadPolicy() error {
-	if atomic.LoadInt32(&e.enableCache) != 0 {
-		if err := e.cache.Clear(); err != nil {
-			return err
-		}
+	// invalidate even while the cache is disabled: entries cached earlier must not be
+	// served once it is enabled again
+	if err := e.cache.Clear(); err != nil {
+		return err
 	}
 	return e.Enforcer.LoadPolicy()
 }
 
 func (e *CachedEnforcer) RemovePolicy(params ...interface{}) (bool, error) {
-	if atomic.LoadInt32(&e.enableCache) != 0 {
-		key, ok := e.getKey(params...)
-		if ok {
-			if err := e.cache.Delete(key); err != nil && err != cache.ErrNoSuchKey {
-				return false, err
-			}
+	key, ok := e.getKey(params...)
+	if ok {
+		if err := e.cache.Delete(key); err != nil && err != cache.ErrNoSuchKey {
+			return false, err
 		}
 	}
 	return e.Enforcer.RemovePolicy(params...)
@@ -110,16 +108,14 @@ func (e *CachedEnforcer) RemovePolicy(params ...interface{}) (bool, error) {
 
 func (e *CachedEnforcer) RemovePolicies(rules [][]string) (bool, error) {
 	if len(rules) != 0 {
-		if atomic.LoadInt32(&e.enableCache) != 0 {
-			irule := make([]interface{}, len(rules[0]))
-			for _, rule := range rules {
-				for i, param := range rule {
-					irule[i] = param
-				}
-				key, _ := e.getKey(irule...)
-				if err := e.cache.Delete(key); err != nil && err != cache.ErrNoSuchKey {
-					return false, err
-				}
+		irule := make([]interface{}, len(rules[0]))
+		for _, rule := range rules {
+			for i, param := range rule {
+				irule[i] = param
+			}
+			key, _ := e.getKey(irule...)
+			if err := e.cache.Delete(key); err != nil && err != cache.ErrNoSuchKey {
+				return false, err
 			}
 		}
 	}
@@ -175,11 +171,9 @@ func GetCacheKey(params ...interface{}) (string, bool) {
 
 // ClearPolicy clears all policy.
 func (e *CachedEnforcer) ClearPolicy() {
-	if atomic.LoadInt32(&e.enableCache) != 0 {
-		if err := e.cache.Clear(); err != nil {
-			e.logger.LogError(err, "clear cache failed")
-			return
-		}
+	if err := e.cache.Clear(); err != nil {
+		e.logger.LogError(err, "clear cache failed")
+		return
 	}
 	e.Enforcer.ClearPolicy()
 }
